@@ -18,21 +18,41 @@ Driver of the BigInt model (ops prefixed `big`).
 op tokens: as:K:x ad:K:x sb:K:x or:K:x an:K:x mu:x dv:d sl:k sr:k lt:x le:x gt:x ge:x eq:x ne:x (object OP x)
            rlt:x rle:x rgt:x rge:x req:x rne:x (x OP object, the reversed friends)
            ib nz iz nu nw:K ff fl cl   and, with a second object t:  sv (t = x)  ld (x = t)  mv (x = move(t));
-           the token of sv/ld/mv is `idx/words/_~idxT/wordsT`
+           the token of sv/ld/mv (and sa: x = x, sm: x = move(x), cc: t rebuilt by the copy constructor from x,
+           mc: x rebuilt by the move constructor from t) is `idx/words/_~idxT/wordsT`;
+           further thin wrappers: cn:K:x (converting constructor) ai:i:x si:i:x (Add/Subtract(x, i)) dq:d (/=)
+           mun:x sln:k srn:k (named Multiply/ShiftLeft/ShiftRight) sad ssb sor san smu sdv (operand = b.Number())
+           ix:i (SetIndex) st:i:v (Storage()[i] = v) mi tw tb so (MaxIndex/TypeWidth/TotalBits/SizeOfType);
+           the K field may be s<K> (signed type), L / sL (unsigned long / long)
 -/
 namespace Qentem.Driver.BigInt
 open Qentem.Driver Qentem.BigInt
+
+/-- operand / target type field: `8 16 32 64 128` (unsigned), `s8 … s128` (signed, value non-negative),
+`L` / `sL` (unsigned long / long: 64 bits, a type distinct from the 64-bit word type). The model only
+needs the width: these are thin wrappers around the proved operations. -/
+def parseK (k : String) : Option Nat :=
+  let k := if k.startsWith "s" then (k.drop 1).toString else k
+  if k == "L" then some 64 else k.toNat?
 
 def parseOp (t : String) : Option Op :=
   match t.splitOn ":" with
   | [o] =>
     if o == "ib" then some .isBig else if o == "nz" then some .notZero else if o == "iz" then some .isZero
     else if o == "nu" then some .number else if o == "ff" then some .ffb else if o == "fl" then some .flb
-    else if o == "cl" then some .clear else none
+    else if o == "cl" then some .clear
+    else if o == "mi" then some .maxIndexC else if o == "tw" then some .typeWidthC
+    else if o == "tb" then some .totalBitsC else if o == "so" then some .sizeOfTypeC
+    else if o == "sad" then some (.self .add) else if o == "ssb" then some (.self .sub)
+    else if o == "sor" then some (.self .or) else if o == "san" then some (.self .and)
+    else if o == "smu" then some (.self .mul) else if o == "sdv" then some (.self .div)
+    else none
   | [o, a] =>
-    match a.toNat? with
+    match (if o == "nw" then parseK a else a.toNat?) with
     | none => none
     | some x =>
+      if o == "mun" then some (.mul x) else if o == "sln" then some (.shl x) else if o == "srn" then some (.shr x)
+      else if o == "dq" then some (.divq x) else if o == "ix" then some (.setIndex x) else
       if o == "mu" then some (.mul x) else if o == "dv" then some (.div x)
       else if o == "sl" then some (.shl x) else if o == "sr" then some (.shr x)
       else if o == "lt" then some (.cmp .lt x) else if o == "le" then some (.cmp .le x)
@@ -43,8 +63,10 @@ def parseOp (t : String) : Option Op :=
       else if o == "req" then some (.rcmp .eq x) else if o == "rne" then some (.rcmp .ne x)
       else if o == "nw" then some (.narrow x) else none
   | [o, k, a] =>
-    match k.toNat?, a.toNat? with
+    match (if o == "ai" || o == "si" || o == "st" then k.toNat? else parseK k), a.toNat? with
     | some k, some x =>
+      if o == "cn" then some (.construct k x) else if o == "ai" then some (.addAt x k)
+      else if o == "si" then some (.subAt x k) else if o == "st" then some (.store k x) else
       if o == "as" then some (.assign k x) else if o == "ad" then some (.bop .add k x)
       else if o == "sb" then some (.bop .sub k x) else if o == "or" then some (.bop .or k x)
       else if o == "an" then some (.bop .and k x) else none
@@ -53,6 +75,8 @@ def parseOp (t : String) : Option Op :=
 
 def parseOp2 (t : String) : Option Op2 :=
   if t == "sv" then some .save else if t == "ld" then some .load else if t == "mv" then some .move
+  else if t == "sa" then some .selfCopy else if t == "sm" then some .selfMove
+  else if t == "cc" then some .copyCtor else if t == "mc" then some .moveCtor
   else (parseOp t).map .on
 
 def trimZeros (ws : List Nat) : List Nat :=
@@ -140,12 +164,16 @@ def oracle (W n : Nat) : Nat → Option Nat → Option Nat → List Op2 → List
           match parseToken n tx, parseT n tt with
           | some (sx, _), some st =>
             -- both objects must be tracked: the destination's invariant is a precondition of `copy`
-            let src : Option Nat := match a, b with
-              | some va, some vb => (match o with | .save => some va | _ => some vb)
+            let exp : Option (Nat × Nat) := match a, b with
+              | some va, some vb =>
+                (match o with
+                 | .save => some (va, va) | .copyCtor => some (va, va)
+                 | .load => some (vb, vb)
+                 | .move => some (vb, 0) | .moveCtor => some (vb, 0)
+                 | _ => some (va, vb))
               | _, _ => none
-            match src with
-            | some v =>
-              let bexp : Nat := match o with | .move => 0 | _ => v
+            match exp with
+            | some (v, bexp) =>
               if sx != canon W n v then describe W n k "x" sx v
               else if st != canon W n bexp then describe W n k "t" st bexp
               else oracle W n (k + 1) (some v) (some bexp) os ts (checked + 1)
